@@ -22,14 +22,14 @@ Proof.
   destruct d as [d|b]; cbn [enc_targ]; [unfold enc_const; rewrite app_length; destruct (enc_op_nonempty (d_op d)) as (x & l & E); rewrite E|]; cbn [length]; lia.
 Qed.
 
-Lemma enc_item_len it : (cfuel_item it <= 2 * length (enc_item it))%nat /\ (isz it <= length (enc_item it))%nat /\ (icnt it <= length (enc_item it))%nat.
+Lemma enc_item_len it : (cfuel_item it <= 3 * length (enc_item it))%nat /\ (isz it <= length (enc_item it))%nat /\ (icnt it <= length (enc_item it))%nat.
 Proof.
-  revert it. fix IH 1. intros [d|bk k seg fa body|lk seg fa ta].
+  revert it. fix IH 1. intros [d|bk k seg fa body|lk seg fa ta|seg k n elems].
   - cbn [cfuel_item isz icnt enc_item]. unfold enc_decl, enc_const. cbn [length]. rewrite !app_length. cbn [seg_bytes length].
     destruct (enc_op_nonempty (d_op d)) as (x & l & E). rewrite E. cbn [length]. lia.
   - rewrite cfuel_blk, isz_blk, icnt_blk, enc_blk. rewrite !app_length. cbn [seg_bytes length].
     destruct (enc_op_nonempty (bk_op bk)) as (x0 & l0 & E). rewrite E. cbn [length].
-    assert (H : (cfuel body <= 2 * length (enc_items body))%nat /\ (iszs body <= length (enc_items body))%nat /\ (icnts body <= length (enc_items body))%nat).
+    assert (H : (cfuel body <= 3 * length (enc_items body))%nat /\ (iszs body <= length (enc_items body))%nat /\ (icnts body <= length (enc_items body))%nat).
     { induction body as [|x t IHt]; [cbn; lia|]. destruct (IH x) as (A & B & C). destruct IHt as (A' & B' & C').
       rewrite cfuel_cons, iszs_cons, icnts_cons, enc_items_cons, app_length. lia. }
     assert (Hk : (1 <= length (enc_pkglen k (k + lenN (seg_bytes seg ++ enc_fx (bfx bk fa) ++ enc_items body))))%nat).
@@ -38,9 +38,13 @@ Proof.
   - rewrite cfuel_leaf, isz_leaf, icnt_leaf, enc_leaf. rewrite !app_length. cbn [seg_bytes length].
     destruct (enc_op_nonempty (lk_op lk)) as (x0 & l0 & E). rewrite E. cbn [length].
     pose proof (len_enc_fx (lfx lk fa)). pose proof (len_enc_ta ta). lia.
+  - rewrite cfuel_pkg, isz_pkg, enc_pkg_item. cbn [icnt length]. rewrite !app_length. cbn [seg_bytes length].
+    assert (Hk : (1 <= length (enc_pkglen k (k + lenN ([n] ++ enc_ta elems))))%nat).
+    { unfold enc_pkglen. destruct (k =? 1); cbn [length]; lia. }
+    pose proof (len_enc_ta elems). lia.
 Qed.
 
-Lemma enc_items_len l : (cfuel l <= 2 * length (enc_items l))%nat /\ (iszs l <= length (enc_items l))%nat /\ (icnts l <= length (enc_items l))%nat.
+Lemma enc_items_len l : (cfuel l <= 3 * length (enc_items l))%nat /\ (iszs l <= length (enc_items l))%nat /\ (icnts l <= length (enc_items l))%nat.
 Proof.
   induction l as [|x t IHt]; [cbn; lia|]. destruct (enc_item_len x) as (A & B & C). destruct IHt as (A' & B' & C').
   rewrite cfuel_cons, iszs_cons, icnts_cons, enc_items_cons, app_length. lia.
@@ -81,7 +85,7 @@ Qed.
 
 Lemma enc_items_bytes : forall l, forallb item_okb l = true -> Forall (fun b => b < 256) (enc_items l).
 Proof.
-  induction l as [|d rest IH|bk k seg fa body rest IHb IH|lk seg fa ta rest IH] using items_ind; intros Hok; [constructor| | |].
+  induction l as [|d rest IH|bk k seg fa body rest IHb IH|lk seg fa ta rest IH|seg k n elems rest IH] using items_ind; intros Hok; [constructor| | | |].
   - apply forallb_item_cons in Hok. destruct Hok as [Hd Hok]. cbn [item_okb] in Hd. apply andb_prop in Hd. destruct Hd as [Hd _].
     rewrite enc_items_cons. apply Forall_app. split; [apply enc_decl_bytes; exact Hd|apply IH; exact Hok].
   - apply forallb_item_cons in Hok. destruct Hok as [Hd Hok]. cbn [item_okb] in Hd.
@@ -95,12 +99,18 @@ Proof.
     rewrite enc_items_cons, enc_leaf. apply Forall_app. split; [|apply IH; exact Hok].
     apply Forall_app. split; [destruct lk; repeat constructor|]. apply Forall_app. split; [apply seg_bytes_lt|].
     apply Forall_app. split; [apply enc_fx_bytes; exact Hfx|apply enc_ta_bytes; exact Hta].
+  - apply forallb_item_cons in Hok. destruct Hok as [Hd Hok]. cbn [item_okb] in Hd.
+    apply andb_prop in Hd. destruct Hd as [Hx Hel]. apply andb_prop in Hx. destruct Hx as [Hx Hpk]. apply pkglen_okb_adm in Hpk.
+    apply andb_prop in Hx. destruct Hx as [_ Hn]. apply N.ltb_lt in Hn.
+    rewrite enc_items_cons, enc_pkg_item. apply Forall_app. split; [|apply IH; exact Hok].
+    constructor; [reflexivity|]. apply Forall_app. split; [apply seg_bytes_lt|]. apply Forall_app. split; [repeat constructor|].
+    apply Forall_app. split; [apply enc_pkglen_bytes; exact Hpk|]. apply Forall_app. split; [constructor; [exact Hn|constructor]|apply enc_ta_bytes; exact Hel].
 Qed.
 
 (** ---- all slots of the range are nodes of [lay2] ---- *)
 Lemma lay2_nodes_all h tbl : forall l b off y, b <= y < b + N.of_nat (iszs l) -> In y (rnodesl (lay2 h tbl b off l)).
 Proof.
-  induction l as [|d rest IH|bk k seg fa body rest IHb IH|lk seg fa ta rest IH] using items_ind; intros b off y Hy; [cbn in Hy; lia| | |].
+  induction l as [|d rest IH|bk k seg fa body rest IHb IH|lk seg fa ta rest IH|seg k n elems rest IH] using items_ind; intros b off y Hy; [cbn in Hy; lia| | | |].
   - rewrite lay2_cons, rnodesl_app. rewrite iszs_cons in Hy. cbn [isz] in Hy. apply in_or_app.
     destruct (N.ltb_spec y (b + 3)) as [Hlt|Hge].
     + left. cbn [lay2_item rnodesl flat_map rnodes app In]. lia.
@@ -122,6 +132,13 @@ Proof.
       destruct (N.eq_dec y b) as [->|Hne]; [left; reflexivity|right].
       apply leaf_row_nodes. rewrite app_length, len_lhd_pays, len_cst_pays. lia.
     + right. apply IH. rewrite isz_leaf. lia.
+  - rewrite lay2_cons, rnodesl_app. rewrite iszs_cons, isz_pkg in Hy. apply in_or_app.
+    destruct (N.ltb_spec y (b + N.of_nat (5 + length elems))) as [Hlt|Hge].
+    + left. cbn [lay2_item]. unfold rnodesl. cbn [flat_map]. rewrite app_nil_r, rnodes_eq.
+      destruct (N.eq_dec y b) as [->|Hne]; [left; reflexivity|right].
+      unfold rnodesl. cbn [flat_map]. rewrite app_nil_r. apply in_or_app.
+      destruct (N.eq_dec y (b + 1)) as [->|Hne1]; [left; rewrite rnodes_eq; left; reflexivity|right]. apply pkg_tree_nodes. lia.
+    + right. apply IH. rewrite isz_pkg. lia.
 Qed.
 
 (** ---- the kinds of nodes of the final tree ---- *)
@@ -135,7 +152,9 @@ Definition f1_ok (h tbl : N) (r : rose) : Prop :=
     (exists off nm p po c co d, a = nam_pay h off nm /\ ks = [RN p (pth_pay h tbl po) []; RN c (cst_pay h co d) []] /\ is_constb (d_op d) = true) \/
     (exists off d, a = cst_pay h off d /\ is_constb (d_op d) = true /\ ks = []) \/
     (exists lk off nm p po rest, a = lf_pay h lk off nm /\ ks = RN p (pth_pay h tbl po) [] :: rest) \/
-    (exists off b, a = str_pay h tbl off b /\ ks = [])
+    (exists off b, a = str_pay h tbl off b /\ ks = []) \/
+    (exists off nm p po rest, a = nam_pay h off nm /\ ks = RN p (pth_pay h tbl po) [] :: rest) \/
+    (exists off, a = pkg_pay h off)
   end.
 (** for the objects of some table *)
 Definition f1_okE (r : rose) : Prop := exists h tbl, f1_ok h tbl r.
@@ -153,12 +172,12 @@ Proof.
   constructor; [|constructor]. destruct d as [d|bs]; cbn [targ_okb targ_pay] in *.
   - unfold cst_okb in Hd. apply andb_prop in Hd. destruct Hd as [Hc _].
     exists h, tbl. cbn [f1_ok]. do 6 right. left. do 2 eexists. split; [reflexivity|split; [exact Hc|reflexivity]].
-  - exists h, tbl. cbn [f1_ok]. do 8 right. do 2 eexists. split; reflexivity.
+  - exists h, tbl. cbn [f1_ok]. do 8 right. left. do 2 eexists. split; reflexivity.
 Qed.
 
 Lemma lay2_ok h tbl : forall l b off, forallb item_okb l = true -> Forall (rallr f1_okE) (lay2 h tbl b off l).
 Proof.
-  induction l as [|d rest IH|bk k seg fa body rest IHb IH|lk seg fa ta rest IH] using items_ind; intros b off Hok; [constructor| | |].
+  induction l as [|d rest IH|bk k seg fa body rest IHb IH|lk seg fa ta rest IH|seg k n elems rest IH] using items_ind; intros b off Hok; [constructor| | | |].
   - apply forallb_item_cons in Hok. destruct Hok as [Hd Hok]. cbn [item_okb] in Hd. apply andb_prop in Hd. destruct Hd as [Hd _].
     unfold decl_okb in Hd. apply andb_prop in Hd. destruct Hd as [Hd _]. apply andb_prop in Hd. destruct Hd as [_ Hc].
     rewrite lay2_cons. apply Forall_app. split; [|apply IH; exact Hok]. cbn [lay2_item]. constructor; [|constructor].
@@ -181,6 +200,16 @@ Proof.
     + constructor.
       * constructor; [|constructor]. exists h, tbl. cbn [f1_ok]. right; right; right; right; left. eexists. split; reflexivity.
       * rewrite leaf_row_app. apply Forall_app. split; [apply fx_row_ok|apply cst_row_ok; exact Hta].
+  - apply forallb_item_cons in Hok. destruct Hok as [Hd Hok]. cbn [item_okb] in Hd. apply andb_prop in Hd. destruct Hd as [_ Hel].
+    rewrite lay2_cons. apply Forall_app. split; [|apply IH; exact Hok]. cbn [lay2_item pkg_tree]. constructor; [|constructor].
+    constructor.
+    + exists h, tbl. cbn [f1_ok]. do 9 right. left. do 5 eexists. split; reflexivity.
+    + constructor; [|constructor; [|constructor]].
+      * constructor; [|constructor]. exists h, tbl. cbn [f1_ok]. right; right; right; right; left. eexists. split; reflexivity.
+      * constructor; [exists h, tbl; cbn [f1_ok]; do 10 right; eexists; reflexivity|].
+        constructor; [|constructor; [|constructor]].
+        -- constructor; [|constructor]. exists h, tbl. cbn [f1_ok]. right; right; left. do 3 eexists. split; reflexivity.
+        -- constructor; [exists h, tbl; cbn [f1_ok]; right; right; right; left; eexists; reflexivity|]. apply cst_row_ok. exact Hel.
 Qed.
 
 Lemma fx_row_okh h tbl : forall l b off, Forall (rallr (f1_ok h tbl)) (leaf_row b (fx_pays h off l)).
@@ -196,12 +225,12 @@ Proof.
   constructor; [|constructor]. destruct d as [d|bs]; cbn [targ_okb targ_pay] in *.
   - unfold cst_okb in Hd. apply andb_prop in Hd. destruct Hd as [Hc _].
     cbn [f1_ok]. do 6 right. left. do 2 eexists. split; [reflexivity|split; [exact Hc|reflexivity]].
-  - cbn [f1_ok]. do 8 right. do 2 eexists. split; reflexivity.
+  - cbn [f1_ok]. do 8 right. left. do 2 eexists. split; reflexivity.
 Qed.
 
 Lemma lay2_okh h tbl : forall l b off, forallb item_okb l = true -> Forall (rallr (f1_ok h tbl)) (lay2 h tbl b off l).
 Proof.
-  induction l as [|d rest IH|bk k seg fa body rest IHb IH|lk seg fa ta rest IH] using items_ind; intros b off Hok; [constructor| | |].
+  induction l as [|d rest IH|bk k seg fa body rest IHb IH|lk seg fa ta rest IH|seg k n elems rest IH] using items_ind; intros b off Hok; [constructor| | | |].
   - apply forallb_item_cons in Hok. destruct Hok as [Hd Hok]. cbn [item_okb] in Hd. apply andb_prop in Hd. destruct Hd as [Hd _].
     unfold decl_okb in Hd. apply andb_prop in Hd. destruct Hd as [Hd _]. apply andb_prop in Hd. destruct Hd as [_ Hc].
     rewrite lay2_cons. apply Forall_app. split; [|apply IH; exact Hok]. cbn [lay2_item]. constructor; [|constructor].
@@ -224,6 +253,16 @@ Proof.
     + constructor.
       * constructor; [|constructor]. cbn [f1_ok]. right; right; right; right; left. eexists. split; reflexivity.
       * rewrite leaf_row_app. apply Forall_app. split; [apply fx_row_okh|apply cst_row_okh; exact Hta].
+  - apply forallb_item_cons in Hok. destruct Hok as [Hd Hok]. cbn [item_okb] in Hd. apply andb_prop in Hd. destruct Hd as [_ Hel].
+    rewrite lay2_cons. apply Forall_app. split; [|apply IH; exact Hok]. cbn [lay2_item pkg_tree]. constructor; [|constructor].
+    constructor.
+    + cbn [f1_ok]. do 9 right. left. do 5 eexists. split; reflexivity.
+    + constructor; [|constructor; [|constructor]].
+      * constructor; [|constructor]. cbn [f1_ok]. right; right; right; right; left. eexists. split; reflexivity.
+      * constructor; [cbn [f1_ok]; do 10 right; eexists; reflexivity|].
+        constructor; [|constructor; [|constructor]].
+        -- constructor; [|constructor]. cbn [f1_ok]. right; right; left. do 3 eexists. split; reflexivity.
+        -- constructor; [cbn [f1_ok]; right; right; right; left; eexists; reflexivity|]. apply cst_row_okh. exact Hel.
 Qed.
 
 
@@ -238,7 +277,7 @@ Proof.
   destruct (Desc_inv _ _ _ _ _ Dy) as (Py & Ky & Dks). assert (a' = a) by congruence. subst a'.
   assert (Hcalls : forall (P : Prop), P -> (negb (y_op a =? aml_pOpIntNamePathOrMethodCall) || negb (y_th a =? H0) = true) -> nonnamed_ok g H0 y a ->
             P /\ nonnamed_ok g H0 y a /\ calls_ok g H0 y a) by (intros P HP Hc Hn; split; [exact HP|split; [exact Hn|split; assumption]]).
-  cbn [f1_ok] in Oy. destruct Oy as [(nm & ->)|[(bk & off & nm & p & po & rest & -> & ->)|[(off & w & v & -> & ->)|[(off & ->)|[(off & -> & ->)|[(off & nm & p & po & c & co & d & -> & -> & Hc)|[(off & d & -> & Hc & ->)|[(lk & off & nm & p & po & rest & -> & ->)|(off & bs & -> & ->)]]]]]]]].
+  cbn [f1_ok] in Oy. destruct Oy as [(nm & ->)|[(bk & off & nm & p & po & rest & -> & ->)|[(off & w & v & -> & ->)|[(off & ->)|[(off & -> & ->)|[(off & nm & p & po & c & co & d & -> & -> & Hc)|[(off & d & -> & Hc & ->)|[(lk & off & nm & p & po & rest & -> & ->)|[(off & bs & -> & ->)|[(off & nm & p & po & rest & -> & ->)|(off & ->)]]]]]]]]]].
   - (* default scope *)
     split; [do 3 eexists; split; [reflexivity|right; reflexivity]|]. split; [do 3 eexists; split; reflexivity|].
     apply Hcalls; [|reflexivity|do 3 eexists; split; [reflexivity|left; reflexivity]].
@@ -292,6 +331,18 @@ Proof.
     split; [do 3 eexists; split; [reflexivity|right; reflexivity]|]. split; [do 3 eexists; split; reflexivity|].
     split; [do 3 eexists; split; [reflexivity|right; left; reflexivity]|].
     split; [do 3 eexists; split; [reflexivity|right; reflexivity]|]. split; [reflexivity|do 3 eexists; split; [reflexivity|right; reflexivity]].
+  - (* Name with any value *)
+    split; [do 3 eexists; split; [reflexivity|right; reflexivity]|]. split; [do 3 eexists; split; reflexivity|].
+    apply Hcalls; [|reflexivity|do 3 eexists; split; [reflexivity|left; reflexivity]].
+    do 3 eexists. split; [reflexivity|]. right; right.
+    pose proof (Forall_inv Dks) as Dp. destruct (Desc_inv _ _ _ _ _ Dp) as (Pp & _ & _).
+    exists p, (pth_pay h tbl po), tbl, (mkSlice (Some po) 4). rewrite Ky. cbn [map ridx hd].
+    split; [reflexivity|]. split; [exact Pp|]. split; [discriminate|]. split; [reflexivity|]. cbn [s_len]. cbv. discriminate.
+  - (* Package *)
+    unfold pkg_pay, merge_ok, defer_ok, reloc_ok, nonnamed_ok, calls_ok. cbn [y_info y_op y_th].
+    split; [do 3 eexists; split; [reflexivity|right; reflexivity]|]. split; [do 3 eexists; split; reflexivity|].
+    split; [do 3 eexists; split; [reflexivity|right; left; reflexivity]|].
+    split; [do 3 eexists; split; [reflexivity|right; reflexivity]|]. split; [reflexivity|do 3 eexists; split; [reflexivity|right; reflexivity]].
 Qed.
 
 (** ---- passes 3 to 6 on any tree that satisfies the local conditions ---- *)
@@ -339,11 +390,12 @@ Definition root_tree (its : list item) : rose :=
 
 Lemma lay2_rsizes h tbl : forall l b off, rsizes (lay2 h tbl b off l) = iszs l.
 Proof.
-  induction l as [|d rest IH|bk k seg fa body rest IHb IH|lk seg fa ta rest IH] using items_ind; intros b off; [reflexivity| | |].
+  induction l as [|d rest IH|bk k seg fa body rest IHb IH|lk seg fa ta rest IH|seg k n elems rest IH] using items_ind; intros b off; [reflexivity| | | |].
   - rewrite lay2_cons, rsizes_app, IH, iszs_cons. reflexivity.
   - rewrite lay2_cons, rsizes_app, IH, iszs_cons, lay2_blk, isz_blk. cbn [rsizes fold_right]. rewrite !rsize_eq.
     rewrite rsizes_app, leaf_row_rsizes, len_hd_pays. cbn [rsizes fold_right]. rewrite rsize_eq, IHb. lia.
   - rewrite lay2_cons, rsizes_app, IH, iszs_cons, isz_leaf. cbn [lay2_item rsizes fold_right]. rewrite rsize_eq, leaf_row_rsizes, app_length, len_lhd_pays, len_cst_pays. lia.
+  - rewrite lay2_cons, rsizes_app, IH, iszs_cons, isz_pkg. cbn [lay2_item]. rewrite rsizes_cons, rsize_eq, rsizes_cons, rsizes_cons, rsize_eq, pkg_tree_rsize. cbn [rsizes fold_right]. lia.
 Qed.
 
 Lemma root_tree_size its : rsize (root_tree its) = (6 + iszs its)%nat.
